@@ -1,6 +1,6 @@
 (* C03 — analytic second derivatives: theorems claimed. *)
 From Coq Require Import List Arith ZArith Reals.
-From LV Require Import Base.NumOps Base.Cart Base.RInst Deriv.DerivModel Deriv.DerivProofs.
+From LV Require Import Base.NumOps Base.Cart Base.RInst Deriv.DerivModel Deriv.DerivProofs Deriv.DerivSecond Deriv.DerivMixed.
 Import ListNotations.
 
 (* Layout and translational sum rules of the 45 returned blocks (distinct centres):
@@ -17,3 +17,30 @@ Theorem C03_hess_layout : forall (QAA QBB QAB : nat -> blk R) na nb,
      r (39 + jaas j) = Ropp (Rplus (r (15 + j)) (r (30 + j)))).
 Proof. exact hess_layout. Qed.
 Print Assumptions C03_hess_layout.
+
+(* Diagonal-centre second derivatives: every entry of every one of the six components that
+   left_shell_second_derivative assembles (clamped dummy indices and the LA <= 1 dummy Q_minus block
+   included) equals the contraction over the shell of the formal derivative rule applied twice,
+   d/dA_p d/dA_q g_a(t) = Dlin a p (D1 a q t), for every LA, every contraction and every functional Bp. *)
+Theorem C03_lssd_linear : forall (prims : list (R * R)) (Bp : R -> triple -> nat -> R) (LA : nat) (Qm : blk R) (c na nb : nat),
+  c < 6 -> na < ncart LA ->
+  (forall LA', LA = S (S LA') -> forall i j, i < ncart LA' -> Qm i j = block prims Bp 0 LA' i j) ->
+  lssd ROps LA (if 1 <? LA then ncart (LA - 2) else 1) Qm (block prims Bp 1 LA) (block prims Bp 2 (S (S LA))) c na nb
+  = Rsum (map (fun ca => Rmult (fst ca) (eval Bp (snd ca) (Dlin (snd ca) (cp c) (D1 (snd ca) (cq c) (klm_at LA na))) nb)) prims).
+Proof. exact lssd_linear. Qed.
+Print Assumptions C03_lssd_linear.
+
+(* Mixed second derivatives: every entry of all nine components that mixed_second_derivative assembles equals the
+   contraction over BOTH shells of the formal rule applied once on each side, for every LA, LB (dummy blocks of
+   s shells included) and every bilinear functional B2. *)
+Theorem C03_mixed_linear : forall (primsA primsB : list (R * R)) (B2 : R -> R -> triple -> triple -> R)
+    (LA LB : nat) (Qmm Qmp Qpm : blk R) (p q na nb : nat),
+  p < 3 -> q < 3 -> na < ncart LA -> nb < ncart LB ->
+  (forall LA' LB', LA = S LA' -> LB = S LB' -> forall i j, i < ncart LA' -> j < ncart LB' -> Qmm i j = block2 primsA primsB B2 0 0 LA' LB' i j) ->
+  (forall LA', LA = S LA' -> forall i j, i < ncart LA' -> Qmp i j = block2 primsA primsB B2 0 1 LA' (S LB) i j) ->
+  (forall LB', LB = S LB' -> forall i j, j < ncart LB' -> Qpm i j = block2 primsA primsB B2 1 0 (S LA) LB' i j) ->
+  mixed ROps LA LB (ncart (LA - 1)) (ncart (LB - 1)) Qmm Qmp Qpm (block2 primsA primsB B2 1 1 (S LA) (S LB)) p q na nb
+  = Rsum (map (fun ca => Rsum (map (fun cb =>
+      Rmult (Rmult (fst ca) (fst cb)) (eval2 B2 (snd ca) (snd cb) (D1 (snd ca) p (klm_at LA na)) (D1 (snd cb) q (klm_at LB nb)))) primsB)) primsA).
+Proof. exact mixed_linear. Qed.
+Print Assumptions C03_mixed_linear.
